@@ -791,6 +791,18 @@ class CeilSym(Sym):
             return SymBool(_simp(self.arg <= rv(o) - 1))
         return Sym.__lt__(self, o)
 
+    def __eq__(self, o):  # ceil(x) == n <=> n-1 < x <= n
+        if self._isint(o):
+            return SymBool(_simp(z3.And(self.arg > rv(o) - 1, self.arg <= rv(o))))
+        return Sym.__eq__(self, o)
+
+    def __ne__(self, o):
+        if self._isint(o):
+            return SymBool(_simp(z3.Not(z3.And(self.arg > rv(o) - 1, self.arg <= rv(o)))))
+        return Sym.__ne__(self, o)
+
+    __hash__ = Sym.__hash__
+
     def __repr__(self):
         return "CeilSym(%s)" % self.arg
 
